@@ -31,6 +31,23 @@ def _util():
     return util
 
 
+_PAD_FIXED = None
+
+
+def pad_is_fixed():
+    """Does this library clip the slice before a rising edge at the array start (notes/EXT18_fix_1.diff)?
+    One probe: epochs([0, 1], pad=2) leaves [1, 1] with the repair, [0, 1] without."""
+    global _PAD_FIXED
+    if _PAD_FIXED is None:
+        x = np.array([False, True])
+        try:
+            _util().epochs(x, 2)
+            _PAD_FIXED = bool(x[0])
+        except Exception:
+            _PAD_FIXED = False
+    return _PAD_FIXED
+
+
 def bits_of(a):
     a = np.asarray(a).ravel()
     return ''.join('1' if v else '0' for v in a.tolist()) or '-'
@@ -187,7 +204,7 @@ class Ext(Spec):
     def model_lines(self, c):
         fn = c['fn']
         if fn == 'epochs_pad':
-            return [f'xepochs {c["pad"]} {c["bits"]}']
+            return [f'{"xepochsf" if pad_is_fixed() else "xepochs"} {c["pad"]} {c["bits"]}']
         if fn == 'epochs_contain':
             if c.get('malformed'):
                 return [f'xcontainb {pairs(c["e"])} {ints(c["ts"])}']
@@ -280,7 +297,7 @@ class Ext(Spec):
     def known_behaviour(self, c, out):
         """recorded behaviours of the unchanged library (notes/EXT18.md) — narrow matches"""
         fn = c['fn']
-        if fn == 'epochs_pad' and c['pad'] > 0:
+        if fn == 'epochs_pad' and c['pad'] > 0 and not pad_is_fixed():
             x = [ch == '1' for ch in c['bits'].replace('-', '')]
             rising = [i for i in range(1, len(x)) if x[i] and not x[i - 1]]
             if any(s < c['pad'] for s in rising):            # `x[s-pad:s]` has a negative start
@@ -412,7 +429,7 @@ def run(tier, seed):
     elif infra:
         rc = 2
     print(f'EXT18 {tier} seed={seed}: theorems {discharged}/{len(entries)}, cases {len(cases)} '
-          f'({", ".join(f"{k} {v}" for k, v in sorted(hist.items()))}), exit {rc}, {time.time() - t0:.1f}s')
+          f'({", ".join(f"{k} {v}" for k, v in sorted(hist.items()))}), epochs-pad={"repaired" if pad_is_fixed() else "as-is"}, exit {rc}, {time.time() - t0:.1f}s')
     return rc
 
 
